@@ -152,7 +152,8 @@ func run(c *Ctx) {
 		"func f(){\n// c\n}", "a // t1\n// t2\nb", "{1:2} // t", "x = [1,\n2]", "for i=0:3 { /* in */ }",
 		"if a { 1 /* yes */ } else { 2 /* no */ }", "if x {1} else { // c\n if y {2} }", "func f() { x /* why */ }\nb = 2", "/* c */ if a {b}",
 		"if a {1} else { /* c */ if b {2} else {3} }", "for i=0:3 { a /* e */ }\nb",
-		"x = 1 // first value \r\ny = 2 //\t\r\n", "// c \r\n// d\t \r\nx", "m = {(a && b):\"both\", (a || b):\"any\"}", "m = {(1:3):\"low\", 4:\"high\"}", "{(a == b):(c : d)}"} {
+		"x = 1 // first value \r\ny = 2 //\t\r\n", "// c \r\n// d\t \r\nx", "m = {(a && b):\"both\", (a || b):\"any\"}", "m = {(1:3):\"low\", 4:\"high\"}", "{(a == b):(c : d)}",
+		"func f() {\n\tif x {\n\t\t/* a\n\n\t\t   b */\n\t\ty\n\t}\n}", "if a {\n/* one\ntwo\n\nthree */\nb}", "for i = 2 { if i { /*\n * s\n *\n */ i } }"} {
 		one(c, []byte(src), true, &s)
 	}
 	n := 1200
